@@ -184,24 +184,35 @@ def codeStart (kws : List (Bytes × Bytes)) (input : Bytes) : Option (Bytes × B
   kws.find? fun kw => kw.1.isPrefixOf input
 
 /-- the slow path of `clean`: a block from a code keyword at the start of a line
-to its end string is copied verbatim; then one ordinary line is cleaned. -/
-def cleanSlow (kws : List (Bytes × Bytes)) : Nat → Bytes → Bytes
+to its end string is copied verbatim; then one ordinary line is cleaned — or, with
+`retest` (the shape of the loop after the candidate repair
+`design.d/C01.code_block.fix.patch`; the translator reads which shape the source has:
+`Gen.RawConsts.cleanRetestsCodeKeyword`), the text behind a copied block is first tested
+for a code keyword again. -/
+def cleanSlow (retest : Bool) (kws : List (Bytes × Bytes)) : Nat → Bytes → Bytes
   | 0, _ => []
   | fuel + 1, input =>
-    let (copied, input1) :=
-      match codeStart kws input with
-      | none => (([] : Bytes), input)
-      | some kw =>
-        match findSub kw.2 input with
-        | none => (input, [])
-        | some p => (input.take (p + kw.2.length) ++ [10], input.drop (p + kw.2.length + 1))
-    match getline input1 with
-    | none => copied
-    | some (line, rest) => copied ++ cleanLine line ++ [10] ++ cleanSlow kws fuel rest
+    match codeStart kws input with
+    | none =>
+      match getline input with
+      | none => []
+      | some (line, rest) => cleanLine line ++ [10] ++ cleanSlow retest kws fuel rest
+    | some kw =>
+      let copied : Bytes := match findSub kw.2 input with
+        | none => input
+        | some p => input.take (p + kw.2.length) ++ [10]
+      let input1 : Bytes := match findSub kw.2 input with
+        | none => []
+        | some p => input.drop (p + kw.2.length + 1)
+      if retest then copied ++ cleanSlow retest kws fuel input1
+      else
+        match getline input1 with
+        | none => copied
+        | some (line, rest) => copied ++ cleanLine line ++ [10] ++ cleanSlow retest kws fuel rest
 
 /-- `clean(code_keywords, str)`. -/
-def clean (kws : List (Bytes × Bytes)) (input : Bytes) : Bytes :=
-  if kws.any (fun kw => (findSub kw.1 input).isSome) then cleanSlow kws (input.length + 1) input
+def clean (retest : Bool) (kws : List (Bytes × Bytes)) (input : Bytes) : Bytes :=
+  if kws.any (fun kw => (findSub kw.1 input).isSome) then cleanSlow retest kws (input.length + 1) input
   else fastClean input
 
 /-! ## keyword names and terminators -/
